@@ -139,9 +139,12 @@ class H(Harness):
                 if not ok:
                     v.append({'signature': 'statistic-wrong:' + k, 'detail': {'reported': got, 'true': x, 'graph': case['stats']}})
             return v
+        if obs.get('earlier_results_intact') is False:
+            # the time series an earlier run on the same objects reported must still be what that run observed
+            v.append({'signature': 'results-of-an-earlier-run-changed-by-a-later-run', 'detail': None})
         mon = obs.get('monitor')
         if mon is None:
-            return [{'signature': 'monitor-results-missing', 'detail': None}]
+            return v + [{'signature': 'monitor-results-missing', 'detail': None}]
         delta = case['delta']
         end = obs['time'] if case['dynamics'] == 'stochastic' else obs['time'] - 1.0
         exp_times = []
